@@ -14,6 +14,7 @@ package main
 // Judged by spec/Trace_Conc.tla.
 
 import (
+	"bufio"
 	"bytes"
 	"encoding/json"
 	"fmt"
@@ -164,6 +165,58 @@ func buildVsRegister() (completed bool) {
 		}
 	}
 	return true
+}
+
+// nestingProbe runs codec construction, schema generation, registration and timestamp parsing on ONE goroutine
+// with nothing else running and records the section events in order. Judged against the design rule of
+// spec/RWLockBuild.tla (NoRecursiveRLock): deterministic, no timing involved.
+type nestInner struct {
+	P *int64            `json:"p"`
+	T time.Time         `json:"t"`
+	M map[string]string `json:"m"`
+}
+type nestOuter struct {
+	A int64                `json:"a"`
+	I nestInner            `json:"i"`
+	L []nestInner          `json:"l"`
+	Q *nestInner           `json:"q"`
+	N map[string]nestInner `json:"n"`
+	G gateType             `json:"g"`
+	E []*[]string          `json:"e"`
+}
+
+func nestingProbe(c *driverCtx) {
+	run := func(name string, f func()) {
+		var events []any
+		setHooks(func(p string) {
+			i := strings.LastIndex(p, ".")
+			if ph := p[i+1:]; ph != "enter" && ph != "leave" {
+				return // point events (bank.alloc, bank.close) are not sections
+			}
+			events = append(events, map[string]any{"sec": p[:i], "ph": p[i+1:]})
+		})
+		pn := catch(f)
+		setHooks(nil)
+		c.rec.NewCase()
+		c.rec.Emit("C12|nesting|"+name, map[string]any{"op": "nesting", "events": events, "panic": pn})
+	}
+	run("register", func() { sectionOp("registry.w"); sectionOp("schema.w") })
+	run("schema-for-type", func() { avro.SchemaForType(nestOuter{}) })
+	run("codec-build", func() {
+		if s, err := avro.SchemaForType(nestOuter{}); err == nil {
+			s.Codec(nestOuter{})
+		}
+	})
+	run("encoder", func() {
+		var sink bytes.Buffer
+		if enc, err := avro.NewEncoderFor[nestOuter](&sink, avro.CompressionNull, 10); err == nil {
+			t := time.Date(2020, 2, 3, 4, 5, 6, 7, time.FixedZone("", 3600+17*60))
+			enc.Encode(&nestOuter{A: 1, I: nestInner{T: t}, L: []nestInner{{T: t}}, N: map[string]nestInner{"k": {T: t}}})
+			enc.Flush()
+			avro.ReadFile(bufio.NewReader(&sink), nestOuter{}, func(val unsafe.Pointer, rb *avro.ResourceBank) error { rb.Close(); return nil })
+		}
+	})
+	run("timestamps", func() { sectionOp("tz.w"); sectionOp("tz.w") })
 }
 
 type stressRecord struct {
@@ -444,6 +497,8 @@ func tzHammerChild(args []string) int {
 }
 
 func driveC12(c *driverCtx) error {
+	// (0) single-goroutine nesting discipline (first: nothing can be stuck yet)
+	nestingProbe(c)
 	// (1) gates
 	secs := []string{"registry.w", "registry.r", "schema.w", "schema.r", "tz.w"}
 	deadlocked := false
